@@ -307,6 +307,50 @@ let footnote_case (defs : string) (evs : string) : string =
   String.concat "," (List.map lk links) ^ "|" ^
   String.concat ";" (List.map (fun it -> Printf.sprintf "%d:%s" (int_of_z it.i_index) (String.concat "," (List.map lk it.i_backlinks))) items)
 
+(* ---------- C02: SpecDoc trees from prefix tokens ---------- *)
+let specdoc_case (tabs : string) (fnl : string) (ser : string) : string =
+  let toks = ref (split_on ' ' ser) in
+  let next () = match !toks with t :: r -> toks := r; t | [] -> failwith "specdoc: out of tokens" in
+  let num () = n_of_int (int_of_string (next ())) in
+  let hexb () = bytes_of_hex (next ()) in
+  let bool () = (next () = "1") in
+  let rec atoms () = let n = int_of_string (next ()) in List.init n (fun _ -> ()) |> List.map (fun () -> atom ())
+  and atom () =
+    match next () with
+    | "W" -> AWord (hexb ())
+    | "E" -> AEsc (num ())
+    | "N" -> let s = num () in let c = num () in AEnt (s, c)
+    | "M" -> let d = num () in AEmph (d, atoms ())
+    | "S" -> let d = num () in AStrong (d, atoms ())
+    | "C" -> let t = num () in let p = bool () in ACode (t, p, hexb ())
+    | "L" -> let st = num () in let v = num () in let ts = num () in let dest = hexb () in
+             let title = (match next () with "~" -> None | h -> Some (bytes_of_hex h)) in
+             let label = hexb () in let body = atoms () in ALink (st, v, ts, body, dest, title, label)
+    | "I" -> let src = hexb () in let n = int_of_string (next ()) in
+             let alt = List.map (fun () -> hexb ()) (List.init n (fun _ -> ())) in AImage (alt, src)
+    | "U" -> AAuto (hexb ())
+    | "R" -> ARaw (hexb ())
+    | "s" -> ASoft
+    | "H" -> AHard (num ())
+    | t -> failwith ("specdoc atom " ^ t) in
+  let lines () = let n = int_of_string (next ()) in List.map (fun () -> hexb ()) (List.init n (fun _ -> ())) in
+  let rec blocks () = let n = int_of_string (next ()) in List.map (fun () -> block ()) (List.init n (fun _ -> ()))
+  and block () =
+    match next () with
+    | "P" -> let i = num () in BPara (i, atoms ())
+    | "G" -> let i = num () in let lv = num () in let st = num () in let ex = num () in BHeading (i, lv, st, ex, atoms ())
+    | "T" -> let i = num () in let st = num () in BHr (i, st)
+    | "K" -> let st = num () in let i = num () in let fl = num () in let info = hexb () in BCode (st, i, fl, info, lines ())
+    | "Q" -> let st = num () in BQuote (st, blocks ())
+    | "O" -> let i = num () in let g = num () in let o = bool () in let start = num () in let d = num () in let m = num () in
+             let tight = bool () in let n = int_of_string (next ()) in
+             BList (i, g, o, start, d, m, tight, List.map (fun () -> blocks ()) (List.init n (fun _ -> ())))
+    | "X" -> BHtml (lines ())
+    | t -> failwith ("specdoc block " ^ t) in
+  let d = blocks () in
+  if !toks <> [] then failwith "specdoc: trailing tokens";
+  hex_of_bytes (md_of (tabs = "1") (fnl = "1") d) ^ "|" ^ hex_of_bytes (html_of d)
+
 let eval (fn : string) (args : string list) : string =
   match fn, args with
   | "AstProg", [n; prog] -> let (_, _, o) = run_ast_prog (int_of_string n) prog in o
@@ -338,6 +382,7 @@ let eval (fn : string) (args : string list) : string =
                        a_val = (match k with "b" -> AVBytes (bytes_of_hex v) | "s" -> AVString (bytes_of_hex v) | _ -> AVOther) }
       | _ -> failwith "attr") (split_on ';' attrs) in
     hex_of_bytes (renderAttributes filt al)
+  | "SpecDoc", [tabs; fnl; ser] -> specdoc_case tabs fnl ser
   | "RenderTree", [cfg; src; tree] ->
     (match renderHTML (parse_rcfg cfg) (bytes_of_hex src) (parse_tree tree) with
      | Ok o -> hex_of_bytes o | Panic -> "PANIC" | OutOfFuel -> "FUEL")
